@@ -14,5 +14,5 @@ CONSTANTS
   MaxDev = 1
   Composites = {{"AnswerAuthNo","OmitECDH"}}
   Bug = {}
-INVARIANT EmitTrace
+INVARIANTS TypeOK RequiredAuthRan RequiredEncOn ReportedEncTruthful ReportedAuthTruthful NoClearAfterKey EmitTrace
 CHECK_DEADLOCK FALSE
